@@ -70,6 +70,10 @@ func aggValue(r *Rng) (interface{}, bool) {
 func genC19(r *Rng, tier string) *c19W {
 	w := &c19W{Run: GenRunCfg(r, []int{1, 10, 1000})}
 	n := []int{0, 1, 2, 5, 12, 30}[r.Intn(6)]
+	if r.Chance(5) {
+		// more rows than any batch the broadcaster may form
+		n = 260 + r.Intn(700)
+	}
 	g := &model.GraphData{}
 	numericOnly := r.Chance(40)
 	for i := 0; i < n; i++ {
@@ -100,20 +104,31 @@ func genC19(r *Rng, tier string) *c19W {
 		g.V = append(g.V, &model.Vertex{ID: fmt.Sprintf("v%d", i), Label: "A", Data: d})
 	}
 	for i := 0; i < n/2; i++ {
-		g.E = append(g.E, &model.Edge{ID: fmt.Sprintf("e%d", i), Label: "k", From: fmt.Sprintf("v%d", r.Intn(n)), To: fmt.Sprintf("v%d", r.Intn(n))})
+		e := &model.Edge{ID: fmt.Sprintf("e%d", i), Label: Pick(r, []string{"k", "k", "l"}), From: fmt.Sprintf("v%d", r.Intn(n)), To: fmt.Sprintf("v%d", r.Intn(n))}
+		if r.Chance(70) {
+			e.Data = map[string]interface{}{"f": []interface{}{-3.0, -1.5, 0.0, 0.5, 1.0, 2.0, 4.0, 7.0}[r.Intn(8)], "s": Pick(r, []string{"a", "b", "c"})}
+		}
+		g.E = append(g.E, e)
 	}
 	w.Graph = g
 	pre := []*gripql.GraphStatement{gen.V()}
-	switch r.Intn(4) {
+	switch r.Intn(6) {
 	case 0:
 		pre = append(pre, gen.HasLabel("A"))
 	case 1:
 		pre = append(pre, gen.Out())
+	case 2:
+		// rows that are edges: on the embedded driver an edge is only loaded
+		// when the plan says its properties are used
+		pre = []*gripql.GraphStatement{gen.E()}
+	case 3:
+		pre = append(pre, gen.OutE())
 	}
 	w.Pre = gen.StmtsJSON(pre)
 	k := 1 + r.Intn(4)
 	for i := 0; i < k; i++ {
 		a := aggSpec{Name: fmt.Sprintf("a%d", i), Field: Pick(r, []string{"f", "f", "s", "nonexistent"})}
+		metaField := r.Chance(12) // a header field instead of a property
 		switch r.Intn(7) {
 		case 0:
 			a.Kind, a.Field = "count", ""
@@ -122,6 +137,9 @@ func genC19(r *Rng, tier string) *c19W {
 			a.Size = []uint32{0, 0, 1, 2, 100}[r.Intn(5)]
 			if r.Chance(35) {
 				a.Field = "m"
+			}
+			if metaField {
+				a.Field = Pick(r, []string{"_label", "_gid"})
 			}
 		case 3:
 			a.Kind = "histogram"
@@ -166,10 +184,20 @@ func shrinkC19(w *c19W) []interface{} {
 		n.Aggs = append(n.Aggs[:i], n.Aggs[i+1:]...)
 		out = append(out, n)
 	}
-	for i := len(w.Graph.V) - 1; i >= 0; i-- {
+	if len(w.Graph.V) > 60 {
+		// volume cases shrink by halves only
 		n := cp()
-		n.Graph.V = append(n.Graph.V[:i], n.Graph.V[i+1:]...)
+		n.Graph.V = n.Graph.V[:len(n.Graph.V)/2]
 		out = append(out, n)
+		n = cp()
+		n.Graph.V = n.Graph.V[len(n.Graph.V)/2:]
+		out = append(out, n)
+	} else {
+		for i := len(w.Graph.V) - 1; i >= 0; i-- {
+			n := cp()
+			n.Graph.V = append(n.Graph.V[:i], n.Graph.V[i+1:]...)
+			out = append(out, n)
+		}
 	}
 	if len(w.Graph.E) > 0 {
 		n := cp()
